@@ -452,8 +452,9 @@ const LAYOUTS: [&str; 4] = ["compact", "spaced", "reordered", "nested"];
 const EKEYS: [&str; 3] = ["right", "other", "bitflip"];
 const ESIGS: [&str; 4] = ["right", "other_key", "bitflip", "over_other"];
 const FLAGN: [&str; 4] = ["UP", "UV", "BE", "BS"];
-const ALENS: [i64; 11] = [0, 1, 32, 33, 36, 37, 38, 41, 77, 100, 300];
-const CLENS: [i64; 7] = [0, 1023, 1024, 1025, 1026, 2000, 5000];
+// (293 = 37 + 256, 65573 = 37 + 65536; 1280 = 1024 + 256, 66560 = 1024 + 65536: lengths that a narrow cast folds back)
+const ALENS: [i64; 13] = [0, 1, 32, 33, 36, 37, 38, 41, 77, 100, 300, 293, 65573];
+const CLENS: [i64; 9] = [0, 1023, 1024, 1025, 1026, 2000, 5000, 1280, 66560];
 
 fn flags_of(mask: usize) -> Vec<&'static str> {
     (0..4).filter(|i| mask >> i & 1 == 1).map(|i| FLAGN[i]).collect()
